@@ -188,7 +188,7 @@ func (fx *Fx) appendCall(st *State, call *ast.CallExpr, spec bool) Val {
 		for _, a := range call.Args[1:] {
 			v := fx.eval(st, a, spec)
 			if call.Ellipsis.IsValid() {
-				r = Val{T: s.T, S: SStr, X: app("concat", r.X, v.X)}
+				r = Val{T: s.T, S: SStr, X: app("sconcat", r.X, v.X)}
 			} else {
 				panic(unsupported("append of single bytes"))
 			}
@@ -255,6 +255,13 @@ func (fx *Fx) copyCall(st *State, call *ast.CallExpr, spec bool) []Val {
 func (fx *Fx) staticCall(st *State, fn *types.Func, recvExpr ast.Expr, call *ast.CallExpr, spec bool) []Val {
 	fn = fn.Origin()
 	sig := fn.Type().(*types.Signature)
+	// method of a type parameter's constraint: an uninterpreted function of the receiver
+	if recvExpr != nil {
+		if tp, ok := fx.typeOf(recvExpr).(*types.TypeParam); ok && tp != nil {
+			recv := fx.eval(st, recvExpr, spec)
+			return []Val{fx.typeParamMethod(recv, tp, fn)}
+		}
+	}
 	// interface method: abstract
 	if recvExpr != nil && sig.Recv() != nil {
 		if _, isIface := sig.Recv().Type().Underlying().(*types.Interface); isIface {
@@ -311,6 +318,17 @@ func (fx *Fx) packVariadic(st *State, sig *types.Signature, args []Val) []Val {
 	}
 	packed := Val{T: vt, S: ss, X: app("mk_"+ss, arr, fmt.Sprint(len(args)-n))}
 	return append(append([]Val(nil), args[:n]...), packed)
+}
+
+func (fx *Fx) typeParamMethod(recv Val, tp *types.TypeParam, fn *types.Func) Val {
+	sig := fn.Type().(*types.Signature)
+	if sig.Params().Len() != 0 || sig.Results().Len() != 1 {
+		panic(unsupported("type-parameter method with arguments: " + fn.Name()))
+	}
+	rt := sig.Results().At(0).Type()
+	rs := fx.d.sortOf(rt)
+	f := fx.d.declareFun("tpm_"+sanitize(tp.Obj().Name())+"_"+fn.Name(), []string{recv.S}, rs)
+	return Val{T: rt, S: rs, X: app(f, recv.X)}
 }
 
 // embeddedReceiver follows the embedded-field path of a promoted method call.
@@ -527,6 +545,7 @@ func (fx *Fx) callByContract(st *State, key string, spec *FuncSpec, fd *FuncDecl
 		st.assume(g)
 	}
 	pre := st.clone()
+	st.births++ // the callee may allocate: its new cells are younger than everything the caller knew
 	// havoc the modifies set
 	for _, m := range spec.Modifies {
 		fx.havocSpecLoc(st, callee, bind, m)
@@ -805,7 +824,9 @@ func (fx *Fx) specBuiltin(st *State, call *ast.CallExpr) ([]Val, bool) {
 		saved, had := st.bound[v]
 		st.bound[v] = Val{T: types.Typ[types.Int], S: SInt, X: qs}
 		n := len(st.pc)
+		fx.inQuant++
 		body := fx.boolTerm(st, call.Args[3], true)
+		fx.inQuant--
 		// assumptions introduced under the binder cannot escape; they only come from slice definitions, which we forbid here
 		if len(st.pc) != n {
 			st.pc = st.pc[:n]
@@ -861,7 +882,7 @@ func (fx *Fx) specBuiltin(st *State, call *ast.CallExpr) ([]Val, bool) {
 		s := fx.eval(st, call.Args[0], true)
 		a := fx.eval(st, call.Args[1], true)
 		b := fx.eval(st, call.Args[2], true)
-		return []Val{{T: s.T, S: SStr, X: app("substr", s.X, a.X, b.X)}}, true
+		return []Val{{T: s.T, S: SStr, X: app("ssub", s.X, a.X, b.X)}}, true
 	case "fmtU":
 		a := fx.eval(st, call.Args[0], true)
 		return []Val{{T: types.Typ[types.String], S: SStr, X: app("fmtU", a.X)}}, true
@@ -877,6 +898,11 @@ func (fx *Fx) specBuiltin(st *State, call *ast.CallExpr) ([]Val, bool) {
 			return []Val{a}, true
 		}
 		return []Val{{S: SReal, X: app("to_real", a.X)}}, true
+	case "ringidx":
+		h := fx.eval(st, call.Args[0], true)
+		l := fx.eval(st, call.Args[1], true)
+		k := fx.eval(st, call.Args[2], true)
+		return intV(app("ringidx", h.X, l.X, k.X)), true
 	case "zeroelem":
 		a := fx.eval(st, call.Args[0], true)
 		et := elemType(a.T)
@@ -896,6 +922,10 @@ func (fx *Fx) specBuiltin(st *State, call *ast.CallExpr) ([]Val, bool) {
 			base = st.old.births
 		}
 		return boolV(app(">", app(sym("birth"), a.X), fmt.Sprint(base))), true
+	case "allocated":
+		a := fx.eval(st, call.Args[0], true)
+		fx.d.declareFun("birth", []string{SRef}, SInt)
+		return boolV(or(app("=", a.X, "nil"), app("<=", app(sym("birth"), a.X), fmt.Sprint(st.births)))), true
 	case "ncalls":
 		return intV(fx.trCount(st)), true
 	case "iscall":
@@ -945,7 +975,7 @@ func (fx *Fx) specBuiltin(st *State, call *ast.CallExpr) ([]Val, bool) {
 func firstPattern(body, qv string) string {
 	best := ""
 	// scan for sub-terms "(select ... qv ...)" or "(sat ...)" that contain qv; choose the innermost-first occurrence
-	for _, head := range []string{"(select ", "(sat ", "(|birth| ", "(fmtU "} {
+	for _, head := range []string{"(ringidx ", "(select ", "(sat ", "(|birth| ", "(fmtU "} {
 		idx := 0
 		for {
 			j := strings.Index(body[idx:], head)
@@ -1039,6 +1069,12 @@ func (fx *Fx) specCall(st *State, call *ast.CallExpr) []Val {
 			bt = rp.loc.T
 		} else {
 			bt = rp.val.T
+		}
+		if tp, ok := bt.(*types.TypeParam); ok {
+			obj, _, _ := types.LookupFieldOrMethod(bt, true, fx.pkg.types, f.Sel.Name)
+			if fn, ok := obj.(*types.Func); ok {
+				return []Val{fx.typeParamMethod(fx.get(st, rp), tp, fn)}
+			}
 		}
 		if bt != nil {
 			for _, p := range fx.v.pkgs {
